@@ -63,8 +63,8 @@ CLAIMS = {
     "C18": ("spec/Walk.tla (effect log), MC_Walk.tla",
             "TLC checks the effect invariants of the walk specification (C18_NoWritesWithoutOut, C18_NoPrintsWithOut, C18_WritesUnderOut, C18_SortedPerDirectory); each terminal behaviour is run through the real cminx.main with and without -o in fresh sandboxes with complete before/after snapshots (paths and bytes, HOME included) and captured stdout; created/changed/deleted paths are compared with the output directory and stdout with the concatenation of the written pages.",
             "diagnostics-free inputs; output styles abs/relative/parent/inside-top/inside-sub; four settings variants", "4 C18"),
-    "C19": ("spec/Runs.tla (GenArgv), MC_Runs.tla, cmake -P + recording shim",
-            "TLC checks C19_Argv for every input kind x extra-argument list; each case runs the real cmake/cminx.cmake under cmake -P with CMINX_EXECUTABLE bound to a shim that logs argv and runs the working-tree CMinx; compared: logged argv vs. the specification's, cmake failing fatally iff CMinx fails, output tree vs. the direct command-line run.",
+    "C19": ("spec/Runs.tla (GenArgv), MC_Runs.tla, GenRst.tla, MC_GenRst.tla, cmake -P + recording shim",
+            "GenRst.tla: repeated calls on one build tree with edits of sources / the -s file and deleted pages in between, C19_TreeIsCurrent after every call, every history up to the bound executed for real and the final tree compared with a fresh command-line run. TLC checks C19_Argv for every input kind x extra-argument list (incl. arguments with blanks and backslashes); each case runs the real cmake/cminx.cmake under cmake -P with CMINX_EXECUTABLE bound to a shim that logs argv and runs the working-tree CMinx; compared: logged argv vs. the specification's, cmake failing fatally iff CMinx fails, output tree vs. the direct command-line run.",
             "arguments with ';' excluded; script mode stands for configure", "4 C19"),
     "C20": ("spec/RstWriter.tla, MC_C20.tla",
             "TLC checks HeadingFramed, IndentExact, OptionsFirst, OrderPreserved, ClearKeepsHeading and the action property ToTextIsPure on the API-history machine for all histories up to the bound; every history ending in to_text is replayed on the real RSTWriter, each serialisation compared character for character with the specification's Lines(), serialised twice and the document compared before/after; the writer calls of real pipeline runs are replayed by TLC (TraceRstWriter.tla) and the predicted serialisation compared line by line with the real page; section() and doctest() are modelled for conformance.",
